@@ -15,9 +15,13 @@ def run(ctx):
     # free-running pass of the same thread bodies under ThreadSanitizer (a serialising scheduler hides races from the detector)
     t = build.ensure_explorer("hist_explore", "tsan", extra_ld=WRAP)
     ctx.run_space(t, "threads", ["free=1"], cpu_limit=600, shards=4, env={"TSAN_OPTIONS": "exitcode=88:halt_on_error=1"})
+    # readers of different stream kinds one after another in one process (file, pipe, callbacks; then the file again)
+    from props.C16 import WRAP as WRAP_WALK
+    w = build.ensure_explorer("arc_walk", "asan", extra_ld=WRAP_WALK)
+    ctx.run_space(w, "kinds", ["prop=15"], cpu_limit=60)
     ctx.assumptions += ["reference reader model of DESIGN.md appendix C (member table from the archive builder; directory stack; deferred list strictly-longer-first, LIFO among equals); extraction results are predicted from the state of the per-execution sandbox directory observed before the call"]
     return ctx.finish(
-        rule="6 generated archives (3 files of different methods; sibling directories a/ and ab/; nested directories then a top-level file; safe + three dangerous links of different and equal path lengths; MacBinary/unknown-method/empty members; a member truncated in its data) x 3 directory policies x "
+        rule="'kinds' (arc_walk, prop=15): each of the 8 walk archives x three walks is read from a seekable file and from a pipe before any other reader has run in the process; then for every ordered pair (first kind, file or pipe) a reader of the first kind runs to the end and the file/pipe reader must observe what it observed when it ran first; 6 generated archives (3 files of different methods; sibling directories a/ and ab/; nested directories then a top-level file; safe + three dangerous links of different and equal path lengths; MacBinary/unknown-method/empty members; a member truncated in its data) x 3 directory policies x "
              "EVERY action vector over {nothing, read 1, read 7, read 4096, read 1+4096, read 7+7, read to end, check, extract} for the first 5 (thorough 6) entries (re-presented ones included), later entries extracted; three further next calls after the end; is_fake after every next. "
              "'threads': 16 reader programs (4 archives x {check all, extract all, read all in 7-byte pieces, alternate check/extract with progress callbacks}) paired in all 136 unordered ways (quick: every fifth pair) on two pthreads under a cooperative scheduler whose scheduling points are the API boundaries and the library's calls into the caller (stream read, progress callback): ALL schedules with <= 2 preemptions (thorough: also <= 3 on every 17th pair, at most 400 000 schedules per pair); scheduling points inside bit-reader input are every 8th source call, each reader's observations compared with its solo run; plus one free-running ThreadSanitizer execution per pair. "
              "Every return value, byte and flag is compared with the model. non-trivial = distinct (archive, policy, used action prefix)",
